@@ -340,8 +340,22 @@ def r_vocab(prog, tier):
     obs = []
     w_elems, w_attrs = set(), set()
     w_open = False
-    for nm in ('tigerxml', 'tigerxml_begin', 'tigerxml_end'):
-        f = prog.func('treeoutput', nm)
+    todo = [prog.func('treeoutput', nm) for nm in ('tigerxml', 'tigerxml_begin', 'tigerxml_end')]
+    seen_f = set()
+    while todo:
+        f = todo.pop()
+        if f.fq in seen_f:
+            continue
+        seen_f.add(f.fq)
+        for n in walk_own(f.node):
+            if isinstance(n, ast.Call):
+                c_ = prog.callee(n, f)
+                if c_ and c_[0] == 'treeoutput' and c_[1] not in ('tigerxml', 'tigerxml_begin', 'tigerxml_end'):
+                    g_ = prog.func(c_[0], c_[1], required=False)
+                    if g_ is not None:
+                        todo.append(g_)         # a worker of the writer: its writes are the writer's
+                elif isinstance(n.func, ast.Name) and n.func.id in f.locals:
+                    w_open = True               # a local / nested function may write as well
         for n in walk_own(f.node):
             if isinstance(n, ast.Call) and unparse(n.func).endswith('.write'):
                 fa = _fmt_args(n)
